@@ -22,7 +22,15 @@
 //! `Recency` uses the generation of a metric, along with a measurement of time when a metric is
 //! observed, to build a complete picture that allows deciding if a given metric has gone "idle" or
 //! not, and thus whether it should actually be deleted.
+#[cfg(metrics_verif)]
+use metrics::__verif::sync::{atomic::AtomicUsize, Mutex};
+#[cfg(metrics_verif)]
+use std::sync::atomic::Ordering;
+#[cfg(metrics_verif)]
+use std::sync::{Arc, PoisonError};
+#[cfg(not(metrics_verif))]
 use std::sync::atomic::{AtomicUsize, Ordering};
+#[cfg(not(metrics_verif))]
 use std::sync::{Arc, Mutex, PoisonError};
 use std::time::Duration;
 use std::{collections::HashMap, ops::DerefMut};
